@@ -13,7 +13,8 @@ TECHNIQUE = ('exhaustive crash-point enumeration (an exception after every prefi
              'pre-commit hook and in commit paths the API can make fail) and exhaustive enumeration of nested attribute '
              'paths of every object handed out, against full canonical snapshots of the real ProviderMdib')
 
-PRE = ['metric(N1,1)', 'patient-new(A)', 'alert-system+cond', 'update-alert-source', 'rt(1,2,3)', 'string(a)']
+PRE = ['metric(N1,1)', 'patient-new(A)', 'alert-system+cond', 'update-alert-source', 'rt(1,2,3)', 'string(a)',
+       'create-metric', 'update-descr(NEW)', 'delete(NEW)']  # the last three leave a removed handle with saved versions
 
 
 class Boom(Exception):
@@ -85,6 +86,15 @@ BODIES = {
         lambda p, tr: _mv(tr.get_state(A.NUM1), Decimal(95)),
         lambda p, tr: tr.get_descriptor(A.AC).Source.append('zz'),
     ]),
+    'descriptor-re-add-removed-handle': ('descriptor_transaction', [
+        lambda p, tr: tr.add_descriptor(A._mk_metric_descriptor(p, A.NEW, A.CH),
+                                        state_container=p.mdib.data_model.mk_state_container(
+                                            A._mk_metric_descriptor(p, A.NEW, A.CH))),
+        lambda p, tr: setattr(tr.get_descriptor(A.CH), 'SafetyClassification', A._pm().SafetyClassification.MED_C),
+    ]),
+    'descriptor-re-add-removed-handle-entity': ('descriptor_transaction', [
+        lambda p, tr: tr.write_entity(_new_entity(p)),
+    ]),
     'descriptor-entity': ('descriptor_transaction', [
         lambda p, tr: tr.write_entity(_ent_descr(p, A.CH)),
         lambda p, tr: tr.remove_entity(p.mdib.entities.by_handle(A.ENUM1)),
@@ -96,6 +106,16 @@ BODIES = {
 def _ent_metric(p, h, v):
     ent = p.mdib.entities.by_handle(h)
     _mv(ent.state, Decimal(v))
+    return ent
+
+
+def _new_entity(p):
+    ent = p.mdib.entities.new_entity(A._names().NumericMetricDescriptor, A.NEW, A.CH)
+    ent.descriptor.Type = A._pm().CodedValue('12345')
+    ent.descriptor.Unit = A._pm().CodedValue('262656')
+    ent.descriptor.Resolution = Decimal('0.1')
+    ent.descriptor.MetricCategory = A._pm().MetricCategory.MEASUREMENT
+    ent.descriptor.MetricAvailability = A._pm().MetricAvailability.CONTINUOUS
     return ent
 
 
@@ -149,6 +169,9 @@ REJECTS = [
     ('descriptor:add_state-without-descriptor', 'descriptor_transaction',
      lambda p, tr: tr.add_state(p.mdib.states.descriptor_handle.get_one(A.NUM1).mk_copy())),
     ('descriptor:add_state(wrong-descriptor)', 'descriptor_transaction',
+     lambda p, tr: tr.add_descriptor(A._mk_metric_descriptor(p, A.NEW, A.CH),
+                                     state_container=p.mdib.states.descriptor_handle.get_one(A.NUM1).mk_copy())),
+    ('descriptor:re-add-removed-handle-with-wrong-state', 'descriptor_transaction',
      lambda p, tr: tr.add_descriptor(A._mk_metric_descriptor(p, A.NEW, A.CH),
                                      state_container=p.mdib.states.descriptor_handle.get_one(A.NUM1).mk_copy())),
     ('descriptor:write_entity-twice', 'descriptor_transaction', lambda p, tr: (tr.write_entity(_ent_descr(p, A.CH)), tr.write_entity(_ent_descr(p, A.CH)))),
